@@ -117,7 +117,7 @@ func ruleR04c(c *Ctx) {
 			slotClass: func(string) string { return operandClass[kk] }})
 	}
 	// function table emitters
-	if init, ok := c.mustVarInit("soyjs", "funcs").(*ast.CompositeLit); ok {
+	if init := jsFuncsLit(c); init != nil {
 		for _, el := range init.Elts {
 			row, ok := el.(*ast.CompositeLit)
 			if !ok || len(row.Elts) < 2 {
